@@ -200,6 +200,20 @@ def model_read(ctx, groups, cnt):
         raise RuntimeError('driver: ' + rep[:200])
     if t.nat() == 0:
         return None
+    return _parse_cntread(t)
+
+
+def model_expected(ctx, case):
+    """(decide (Femio.C03.WFCnt c), Femio.C03.expectedCnt c): hypothesis and right-hand side of C03_file_roundtrip"""
+    rep = ctx.driver.ask('c03.expected ' + enc_case(case))
+    t = C.Toks(rep)
+    if t.tok() != 'ok':
+        raise RuntimeError('driver: ' + rep[:200])
+    wf = t.nat() == 1
+    return wf, _parse_cntread(t)
+
+
+def _parse_cntread(t):
     out = {'solution': C.unesc(t.tok())}
 
     def opt(f):
@@ -297,6 +311,19 @@ def eval_case(ctx, case, groups=True):
         k = 'model-raises' if mr is None else diff_read(got, mr)
         if k:
             ctx.disagree('cnt read: ' + k, inp, got.get(k), None if mr is None else mr.get(k))
+        # theorem C03_file_roundtrip instantiated on this case: its hypothesis `WFCnt c` must hold for the generated
+        # (in-quantifier) input and its right-hand side `expectedCnt c` must be what the REAL reader returned
+        if case['decimal']:
+            wf, exp = model_expected(ctx, case)
+            ctx.count('theorem-hypothesis WFCnt:' + str(wf).lower())
+            if not wf:
+                ctx.disagree('generated in-quantifier case is outside Femio.C03.WFCnt (hypothesis of C03_file_roundtrip)',
+                             inp, 'in quantifier', 'WFCnt = false')
+            else:
+                k = diff_read(got, exp)
+                if k:
+                    ctx.disagree('expectedCnt (right-hand side of C03_file_roundtrip) vs real reader: ' + k, inp,
+                                 got.get(k), exp.get(k))
     if not groups or n_presc == 0:
         return
     # node-group name vs explicit listing
